@@ -183,6 +183,7 @@ int sm2_fast_sign(const sm2_z256_t fast_private, SM2_SIGN_PRE_COMP *pre_comp,
 	sm2_z256_t e;
 	sm2_z256_t r;
 	sm2_z256_t s;
+	sm2_z256_t t;
 
 	// e = H(M)
 	sm2_z256_from_bytes(e, dgst);
@@ -193,11 +194,22 @@ int sm2_fast_sign(const sm2_z256_t fast_private, SM2_SIGN_PRE_COMP *pre_comp,
 	// r = e + x1 (mod n)
 	sm2_z256_modn_add(r, e, pre_comp->x1_modn);
 
+	// if r == 0 or r + k == n, return 0 and the caller should try another k
+	sm2_z256_add(t, r, pre_comp->k);
+	if (sm2_z256_is_zero(r) || sm2_z256_cmp(t, sm2_z256_order()) == 0) {
+		return 0;
+	}
+
 	// s = (k + r) * d' - r
 	sm2_z256_modn_add(s, pre_comp->k, r);
 	sm2_z256_modn_to_mont(s, s);
 	sm2_z256_modn_mont_mul(s, s, fast_private); // mont(s) * d = s * R^-1 * d * R = s * d
 	sm2_z256_modn_sub(s, s, r);
+
+	// if s == 0, try another k
+	if (sm2_z256_is_zero(s)) {
+		return 0;
+	}
 
 	sm2_z256_to_bytes(r, sig->r);
 	sm2_z256_to_bytes(s, sig->s);
@@ -567,6 +579,7 @@ int sm2_sign_finish(SM2_SIGN_CTX *ctx, uint8_t *sig, size_t *siglen)
 {
 	uint8_t dgst[SM3_DIGEST_SIZE];
 	SM2_SIGNATURE signature;
+	int ret;
 
 	if (!ctx || !sig || !siglen) {
 		error_print();
@@ -575,20 +588,23 @@ int sm2_sign_finish(SM2_SIGN_CTX *ctx, uint8_t *sig, size_t *siglen)
 
 	sm3_finish(&ctx->sm3_ctx, dgst);
 
-	if (ctx->num_pre_comp == 0) {
-		if (sm2_fast_sign_pre_compute(ctx->pre_comp) != 1) {
+	// sm2_fast_sign() returns 0 when r == 0, r + k == n or s == 0, then use the next k
+	do {
+		if (ctx->num_pre_comp == 0) {
+			if (sm2_fast_sign_pre_compute(ctx->pre_comp) != 1) {
+				error_print();
+				return -1;
+			}
+			ctx->num_pre_comp = SM2_SIGN_PRE_COMP_COUNT;
+		}
+
+		ctx->num_pre_comp--;
+		if ((ret = sm2_fast_sign(ctx->fast_sign_private, &ctx->pre_comp[ctx->num_pre_comp],
+			dgst, &signature)) < 0) {
 			error_print();
 			return -1;
 		}
-		ctx->num_pre_comp = SM2_SIGN_PRE_COMP_COUNT;
-	}
-
-	ctx->num_pre_comp--;
-	if (sm2_fast_sign(ctx->fast_sign_private, &ctx->pre_comp[ctx->num_pre_comp],
-		dgst, &signature) != 1) {
-		error_print();
-		return -1;
-	}
+	} while (ret != 1);
 
 	*siglen = 0;
 	if (sm2_signature_to_der(&signature, &sig, siglen) != 1) {
